@@ -85,10 +85,10 @@ template <int N, class T> static void affine(pbt::Ctx& c) {
 	PBT_RANDOM("affine_inverse/mat" #N "/" #tname, affine_##N##_##tname, q, t, \
 	           "affine M = [L t; 0 1] with L of every generator class (one sixth integer unimodular with integer t: exact), t up to 2 max|L|, L at scale 2^-2..2^2, kappa_2(M) <= cap; every entry against the reference inverse with the " \
 	           "cofactor bound of L carried through -L^-1 t, last row exactly (0..0 1), and against GLM's own inverse(M); non-trivial = L neither diagonal nor symmetric, t != 0, bounds <= 1e-2 max|inverse|")
-REG_AFF(3, float, float, 200000, 4000000);
-REG_AFF(4, float, float, 200000, 4000000);
-REG_AFF(3, double, double, 150000, 4000000);
-REG_AFF(4, double, double, 150000, 4000000);
+REG_AFF(3, float, float, 200000, 2500000);
+REG_AFF(4, float, float, 200000, 2500000);
+REG_AFF(3, double, double, 150000, 2500000);
+REG_AFF(4, double, double, 150000, 2500000);
 
 // =============================================================================================
 // operator/ : A / B = A * inverse(B), B / v = inverse(B) * v, v / B = v * inverse(B), A /= B; B / s and s / B are component-wise.
@@ -164,12 +164,12 @@ template <int N, class T> static void division(pbt::Ctx& c) {
 	           "divisor B of every generator class with kappa_2 <= cap (one sixth integer unimodular with integer numerators: exact), numerators A, v small integers or magnitudes 2^-4..2^4; A/B against A*inverse(B), B/v against " \
 	           "inverse(B)*v, v/B against v*inverse(B) with the reference inverse and the cofactor bound carried through the product, A/=B identical to A/B, B/s, s/B, B/=s one rounded division per component; " \
 	           "non-trivial = B neither diagonal nor symmetric, A not symmetric, v with distinct components (row/column mix-ups visible), bound <= 1e-2 of the result scale")
-REG_DIV(2, float, float, 150000, 3000000);
-REG_DIV(3, float, float, 150000, 3000000);
-REG_DIV(4, float, float, 150000, 3000000);
-REG_DIV(2, double, double, 150000, 3000000);
-REG_DIV(3, double, double, 100000, 3000000);
-REG_DIV(4, double, double, 100000, 3000000);
+REG_DIV(2, float, float, 150000, 2000000);
+REG_DIV(3, float, float, 150000, 2000000);
+REG_DIV(4, float, float, 150000, 2000000);
+REG_DIV(2, double, double, 150000, 2000000);
+REG_DIV(3, double, double, 100000, 2000000);
+REG_DIV(4, double, double, 100000, 2000000);
 
 // =============================================================================================
 // orthonormality deviations of the columns (and rows) of an n x n matrix, in long double
@@ -240,12 +240,12 @@ template <int N, class T> static void qrrq(pbt::Ctx& c) {
 	PBT_RANDOM("qr_rq/mat" #N "/" #tname, qrrq_##N##_##tname, q, t, \
 	           "square M of every generator class with kappa_2 <= cap; qr_decompose: q*r = M column-wise, columns of q orthonormal, r exactly upper triangular; rq_decompose: r*q = M row-wise, rows of q orthonormal, r exactly upper " \
 	           "triangular; both within 8 n (n+3) u kappa (modified Gram-Schmidt); isOrthogonal(q, eps) decided by the measured deviation; non-trivial = M not diagonal and the bound <= 1e-2")
-REG_QR(2, float, float, 150000, 3000000);
-REG_QR(3, float, float, 150000, 3000000);
-REG_QR(4, float, float, 150000, 3000000);
-REG_QR(2, double, double, 150000, 3000000);
-REG_QR(3, double, double, 100000, 3000000);
-REG_QR(4, double, double, 100000, 3000000);
+REG_QR(2, float, float, 150000, 2000000);
+REG_QR(3, float, float, 150000, 2000000);
+REG_QR(4, float, float, 150000, 2000000);
+REG_QR(2, double, double, 150000, 2000000);
+REG_QR(3, double, double, 100000, 2000000);
+REG_QR(4, double, double, 100000, 2000000);
 
 // =============================================================================================
 // gtx/matrix_query: the doc comments only name the predicates ("is a null / an identity / a normalized / an orthonormalized matrix" within epsilon), so the
@@ -322,12 +322,12 @@ template <int N, class T> static void query(pbt::Ctx& c) {
 	           "identity / rounded orthogonal / zero / scaled orthogonal / random matrices, perturbed in one entry (either sign) or in all entries by {0, .3, .7, .999, 1, 1.001, 1.5, 1.9, 2.1, 3, 10} x eps, eps log-uniform or a power of two; " \
 	           "isIdentity decided component-wise (exact compare off the diagonal, one rounding on it), isNull / isNormalized / isOrthogonal required true or false only outside the band between the readings of the doc comment; " \
 	           "non-trivial = a perturbed identity or orthogonal matrix (a predicate sits near its threshold)")
-REG_Q(2, float, float, 200000, 4000000);
-REG_Q(3, float, float, 200000, 4000000);
-REG_Q(4, float, float, 200000, 4000000);
-REG_Q(2, double, double, 200000, 4000000);
-REG_Q(3, double, double, 200000, 4000000);
-REG_Q(4, double, double, 200000, 4000000);
+REG_Q(2, float, float, 200000, 2500000);
+REG_Q(3, float, float, 200000, 2500000);
+REG_Q(4, float, float, 200000, 2500000);
+REG_Q(2, double, double, 200000, 2500000);
+REG_Q(3, double, double, 200000, 2500000);
+REG_Q(4, double, double, 200000, 2500000);
 
 // =============================================================================================
 // diagonalCxR(v): v on the diagonal, zero elsewhere; fliplr: columns reversed; flipud: rows reversed. BITS.
